@@ -657,7 +657,8 @@ def r_noalloc(F, R, cat=None):
             if e.tag in EXACT_FIT:
                 bad.append(("R-AMORTISED", e, "%s::%s defeats amortised growth" % e.tag))
             if e.tag in (("fn", "swap"), ("fn", "replace"), ("fn", "take")) and any(
-                    c is ctx and r == ("arg", 1) for (c, (r, p)) in e.targets or ()):
+                    c is ctx and r == ("arg", 1) and not (p and p[0].startswith("f:") and (b.self_adt, p[0][2:]) in F.debug_only_fields)
+                    for (c, (r, p)) in e.targets or ()):
                 bad.append(("R-NOALLOC", e, "mem::%s replaces the storage (and discards a pre-sized buffer)" % e.tag[1]))
         for (rule, e, why) in bad:
             R.check(rule, b.label(), False, construct="%s::%s" % e.tag, where=e.where(), detail=why)
